@@ -9,6 +9,7 @@
    (the compile-time CHECK_N) and 8 * N <= usize::MAX.  Colours are their raw values (raw_ok: < 2^bits).
    fb_pixel returns Panic | Pix (option colour): the theorems show it is never Panic. *)
 From EG Require Import Base.Prelude Model.Rawdata Proofs.Rawdata Model.Framebuffer Proofs.Framebuffer.
+From EG Require Model.Geometry Model.Target Proofs.Target Proofs.Fbtarget Gen.FbShape.
 
 (* a new framebuffer reads the all-zero colour inside, None outside *)
 Theorem C10_fb_init : forall c n q,
@@ -56,14 +57,67 @@ Theorem C10_fb_history : forall c ops data q,
   fb_ok c data -> Forall (fbop_ok c) ops ->
   fb_ok c (fold_left (fb_step c) ops data) /\
   buf_len (fold_left (fb_step c) ops data) = buf_len data /\
-  fb_pixel c (fold_left (fb_step c) ops data) q = last_write c q (flat_map op_writes ops) (fb_pixel c data q).
+  fb_pixel c (fold_left (fb_step c) ops data) q = last_write c q (flat_map (op_writes c) ops) (fb_pixel c data q).
 Proof. exact fb_history. Qed.
 
 Theorem C10_fb_history_from_new : forall c n ops q,
   fb_ok c (fb_new n) -> Forall (fbop_ok c) ops ->
   fb_pixel c (fold_left (fb_step c) ops (fb_new n)) q =
-  last_write c q (flat_map op_writes ops) (Pix (if fb_insideb c q then Some 0 else None)).
+  last_write c q (flat_map (op_writes c) ops) (Pix (if fb_insideb c q then Some 0 else None)).
 Proof. exact fb_history_new. Qed.
+
+(* ---- fill_solid / fill_contiguous / clear: Framebuffer inherits the DrawTarget trait defaults -------------------
+   (op_writes of these operations is area.points() zipped with the colour stream, i.e. what the defaults of
+   core/src/draw_target/mod.rs hand to draw_iter; C10_fb_history and C10_fb_tail_untouched_history above range
+   over all five operations).  rect_fits = the rectangle's extents and far edges fit i32 (Rectangle::points
+   does not saturate); stream_ok = every colour of the stream is a raw value. *)
+
+(* the source defines only draw_iter in every `impl DrawTarget for Framebuffer` and the three default bodies are
+   the ones modelled (regenerated from the tree under test by translate/gen_fb.py; a change breaks this proof) *)
+Theorem C10_fb_inherits_trait_defaults :
+  FbShape.fb_drawtarget_impls = 3%nat /\ FbShape.fb_drawtarget_other_fns = 0%nat /\
+  FbShape.trait_defaults_as_modelled = true /\ FbShape.fb_size_is_width_height = true.
+Proof. repeat split; reflexivity. Qed.
+
+Theorem C10_fb_clear : forall c data v q,
+  fb_ok c data -> raw_ok (fb_t c) v ->
+  fb_pixel c (fb_clear c data v) q = Pix (if fb_insideb c q then Some v else None).
+Proof. exact Fbtarget.fb_clear_spec. Qed.
+
+Theorem C10_fb_fill_solid : forall c data a v q,
+  fb_ok c data -> raw_ok (fb_t c) v -> Target.rect_fits a ->
+  fb_pixel c (fb_fill_solid c data a v) q =
+  if fb_insideb c q && Geometry.contains a (Geometry.P (fst q) (snd q)) then Pix (Some v) else fb_pixel c data q.
+Proof. exact Fbtarget.fb_fill_solid_spec. Qed.
+
+(* colour number (y - top) * width + (x - left) of the stream goes to (x, y); surplus colours are ignored, a
+   stream that ends early leaves the remaining points unchanged *)
+Theorem C10_fb_fill_contiguous : forall c data a cs q,
+  fb_ok c data -> Fbtarget.stream_ok c cs -> Target.rect_fits a ->
+  fb_pixel c (fb_fill_contiguous c data a cs) q =
+  if fb_insideb c q && Geometry.contains a (Geometry.P (fst q) (snd q))
+  then match Target.sget cs (Target.idx_in a (Geometry.P (fst q) (snd q))) with
+       | Some v => Pix (Some v) | None => fb_pixel c data q end
+  else fb_pixel c data q.
+Proof. exact Fbtarget.fb_fill_contiguous_spec. Qed.
+
+(* the operation conditions of the history theorems are met by raw colours *)
+Theorem C10_fb_fill_ops_ok : forall c a v cs,
+  (raw_ok (fb_t c) v -> fbop_ok c (OpFillSolid a v) /\ fbop_ok c (OpClear v)) /\
+  (Fbtarget.stream_ok c cs -> fbop_ok c (OpFillContiguous a cs)).
+Proof. exact Fbtarget.fill_ops_ok. Qed.
+
+(* Framebuffer is a conforming target: any history of the five operations leaves the map that painting the
+   corresponding calls on a target with NATIVE fill methods leaves (Model/Target.v, property C03's semantics) *)
+Theorem C10_fb_history_is_paint : forall c ops data p,
+  fb_ok c data -> Forall (fbop_ok c) ops -> Forall Fbtarget.fbop_fits ops ->
+  Fbtarget.fb_abs c (fold_left (fb_step c) ops data) p =
+  Target.paint_all (fb_bounding_box c) Target.Native (map Fbtarget.op_call ops) (Fbtarget.fb_abs c data) p.
+Proof. exact Fbtarget.fb_history_paint. Qed.
+
+Theorem C10_fb_step_tail_untouched : forall c data o k,
+  fb_ok c data -> fbop_ok c o -> fb_buffer_size c <= k -> byte_at (fb_step c data o) k = byte_at data k.
+Proof. exact Fbtarget.fb_step_tail. Qed.
 
 (* outside WIDTH x HEIGHT: pixel is None, a write changes no byte - for every i32 point and every state *)
 Theorem C10_fb_pixel_outside_none : forall c data q,
